@@ -2,9 +2,13 @@ package checks
 
 import (
 	"fmt"
+	"github.com/hashicorp/raft"
+	wal "github.com/hashicorp/raft-wal"
 	"math/rand"
 	"runtime"
 	"sync"
+	"verif/internal/drv"
+	"verif/internal/simfs"
 
 	"verif/internal/evid"
 	"verif/internal/vsim"
@@ -18,7 +22,28 @@ func init() {
 // judges every delivered report.
 func c16History(c *evid.Ctx, seed int64) {
 	rng := rand.New(rand.NewSource(seed))
-	cl := vsim.NewCluster(rng, 3+rng.Intn(3))
+	nn := 3 + rng.Intn(3)
+	var cl *vsim.Cluster
+	if seed%4 == 1 {
+		// the middleware over the real WAL (its codec, its readers) instead of raft.InmemStore
+		var wals []*wal.WAL
+		cl = vsim.NewClusterOver(rng, nn, func() raft.LogStore {
+			w, err := drv.OpenSim(simfs.New(simfs.Strict), drv.Cfg{SegSize: 2048})
+			if err != nil {
+				panic(err)
+			}
+			wals = append(wals, w)
+			return w
+		})
+		defer func() {
+			for _, w := range wals {
+				drv.CloseWAL(w)
+			}
+		}()
+		c.Count("histories_over_real_wal", 1)
+	} else {
+		cl = vsim.NewCluster(rng, nn)
+	}
 	defer cl.Close()
 	steps := 25 + rng.Intn(50)
 	if seed%2 == 0 {
@@ -171,7 +196,7 @@ func tail(s []string, n int) []string {
 }
 
 func runC16(c *evid.Ctx) {
-	c.Rule("random multi-node histories (3-5 nodes, each the real verifier.LogStore over an InmemStore): leader appends with checkpoints, replication in arbitrary batch splits and lags, leadership changes with conflicting suffixes (follower tail truncation + re-append), middleware restarts, head truncations, and - in half of the histories - appends refused now and then by a node's underlying store (a follower's batch is re-sent with a new split, a leader steps down), so that the stores still end up holding exactly what the leaders wrote; no corruption is injected; every delivered report is judged against the harness's ground truth of what the checkpoint's leader held; non-trivial = distinct (role, what preceded the checkpoint on that node: tail truncation / restart / leader change / head truncation / refused append, range held or not)",
+	c.Rule("random multi-node histories (3-5 nodes, each the real verifier.LogStore over an InmemStore, a quarter of the histories over real WALs): leader appends with checkpoints, replication in arbitrary batch splits and lags, leadership changes with conflicting suffixes (follower tail truncation + re-append), middleware restarts, head truncations, and - in half of the histories - appends refused now and then by a node's underlying store (a follower's batch is re-sent with a new split, a leader steps down), so that the stores still end up holding exactly what the leaders wrote; no corruption is injected; every delivered report is judged against the harness's ground truth of what the checkpoint's leader held; non-trivial = distinct (role, what preceded the checkpoint on that node: tail truncation / restart / leader change / head truncation / refused append, range held or not)",
 		"checkpoints_judged", "contexts")
 	c.Assume("ranges are not modified while their verification runs (the driver waits, by metric counts, for each report before the next step)", "FNV-1a collisions not searched for")
 	n := 1500
